@@ -174,10 +174,17 @@ def path_failure_is_false(ctx):
     else:
         lp = loops[0]
         part = norm(lp.target)
-        sub = [n for n in walk_local(lp) if isinstance(n, ast.Assign) and norm(n.targets[0]) == v
-               and norm(n.value) == f"{v}[{part}]"]
-        app = [n for n in walk_local(lp) if isinstance(n, ast.Assign) and norm(n.targets[0]) == v
-               and norm(n.value) == f"{part}({v})"]
+        # the two step expressions, as the value of an assignment to the walked variable or as the
+        # arms of a conditional expression assigned to it
+        def arms(e):
+            if isinstance(e, ast.IfExp):
+                return arms(e.body) + arms(e.orelse)
+            return [e]
+        steps = [a_ for n in walk_local(lp) if isinstance(n, ast.Assign) and norm(n.targets[0]) == v for a_ in arms(n.value)]
+        sub = [e for e in steps if norm(e) == f"{v}[{part}]"]
+        app = [e for e in steps if norm(e) == f"{part}({v})"]
+        if len(steps) != 2:
+            sub = []
         if len(sub) != 1 or len(app) != 1:
             bad.append("loop body is not `value = value[part]` for keys / `value = part(value)` for functions")
         else:
@@ -187,6 +194,10 @@ def path_failure_is_false(ctx):
                 bad.append("key traversal is not conditional on the part being a string")
             if not any(len(c) == 1 and next(iter(c)) == (f"truthy(isinstance({part}, str))", False) for c in ca):
                 bad.append("function application is not the non-string case")
+            extra = [c for c in (cs | ca) if not (len(c) == 1 and next(iter(c))[0] == f"truthy(isinstance({part}, str))")]
+            if extra:
+                bad.append(f"a path step is additionally conditioned on {sorted(map(sorted, extra))[:1]}: for some values a key "
+                           f"or map function of the path is silently skipped")
     rets = [x for x in walk_local(r.node) if isinstance(x, ast.Return)]
     if not any(norm(x.value) == v for x in rets):
         bad.append("resolver does not return the walked value")
@@ -367,8 +378,15 @@ def comparison_table(ctx):
         b, _ = bind_args(sq[0], init)
         exp = {"point_attr": "self._point_attr", "operator": "operator", "rhs": "rhs", "test": "test",
                "path_resolver": "path_resolver"}
+        def through_copy(e):
+            # a local bound exactly once to a plain name/attribute chain stands for that chain
+            if isinstance(e, ast.Name) and e.id not in gen.params():
+                vals = assignments_to(gen, e.id)
+                if len(vals) == 1 and isinstance(vals[0], (ast.Name, ast.Attribute)):
+                    return vals[0]
+            return e
         for k, v in exp.items():
-            if norm(b.get(k)) != v:
+            if norm(through_copy(b.get(k))) != v:
                 bad.append(f"{k}={norm(b.get(k))}, expected {v}")
     st = {norm(n.targets[0]): norm(n.value) for n in walk_local(init.node) if isinstance(n, ast.Assign)}
     for k in ("point_attr", "operator", "rhs", "test", "path_resolver"):
@@ -405,7 +423,56 @@ def identity_completeness(ctx):
                             for x in walk_local(g.node):
                                 if isinstance(x, ast.Name) and x.id in params and x.id not in bound:
                                     inputs.add(x.id)
-        hv_names = names_in(hv) if hv is not None else set()
+        # locals the closure / arguments are computed from count through to the parameters they derive from
+        def param_deps(name: str, seen=None) -> Set[str]:
+            seen = seen or set()
+            if name in params:
+                return {name}
+            if name in seen:
+                return set()
+            seen = seen | {name}
+            out: Set[str] = set()
+            for v in assignments_to(f, name):
+                for nm2 in names_in(v):
+                    out |= param_deps(nm2, seen)
+            return out
+        for k in ("operator", "rhs", "args"):
+            e = b.get(k)
+            if e is None:
+                continue
+            for nm in names_in(e):
+                if nm not in params:
+                    inputs |= param_deps(nm)
+                    for g in ctx.prog.nested(f):
+                        if g.name == nm:
+                            bound = set(g.params()) | {x.id for x in walk_local(g.node) if isinstance(x, ast.Name)
+                                                       and isinstance(x.ctx, ast.Store)}
+                            for x in walk_local(g.node):
+                                if isinstance(x, ast.Name) and isinstance(x.ctx, ast.Load) and x.id not in bound \
+                                        and x.id not in params:
+                                    inputs |= param_deps(x.id)
+        # what the identity tuple carries: whole parameters / whole locals (an attribute or item of
+        # a local, e.g. compiled.pattern, carries only part of it)
+        hv_names = set()
+        if hv is not None:
+            elts = hv.elts if isinstance(hv, ast.Tuple) else [hv]
+            for e_ in elts:
+                if isinstance(e_, ast.Name):
+                    hv_names |= {e_.id} | param_deps(e_.id)
+                elif isinstance(e_, (ast.Tuple, ast.List)) or (isinstance(e_, ast.Call) and isinstance(e_.func, ast.Name)
+                                                                 and e_.func.id in ("tuple", "frozenset", "freeze", "str", "repr")):
+                    for nm2 in names_in(e_):
+                        hv_names |= {nm2} | param_deps(nm2)
+                elif isinstance(e_, ast.Attribute) and isinstance(e_.value, ast.Name) and e_.value.id == "self":
+                    pass
+                elif isinstance(e_, (ast.Attribute, ast.Subscript)):
+                    base = e_
+                    while isinstance(base, (ast.Attribute, ast.Subscript)):
+                        base = base.value
+                    if isinstance(base, ast.Name) and base.id in params:
+                        pass  # a projection of a parameter carries only part of it
+                else:
+                    hv_names |= names_in(e_)
         hv_attrs = {n.attr for n in ast.walk(hv) if isinstance(n, ast.Attribute)} if hv is not None else set()
         bad = []
         missing = sorted(inputs - hv_names)
@@ -459,9 +526,16 @@ def identity_cases(ctx, f: Func):
 
     def expand(value, conds, depth=0):
         if isinstance(value, ast.IfExp):
-            t = norm(value.test)
-            expand(value.body, conds | {(f"truthy({t})", True)}, depth)
-            expand(value.orelse, conds | {(f"truthy({t})", False)}, depth)
+            from ..logic import cnf, formula, negate
+
+            def units(fm):
+                try:
+                    return {next(iter(c)) for c in cnf(fm) if len(c) == 1}
+                except ValueError:
+                    return set()
+            fm = formula(value.test)
+            expand(value.body, conds | units(fm), depth)
+            expand(value.orelse, conds | units(negate(fm)), depth)
             return
         if isinstance(value, ast.Call) and isinstance(value.func, ast.Name) and depth < 2:
             tg = ctx.res.resolve_name(value.func.id, f)
@@ -604,11 +678,15 @@ def unhashable_never_equal(ctx):
              "map() sets the identity to None" if ok else "map() leaves a hashable identity on a query with a function in its path",
              mp.loc())
     ga = ctx.prog.func("BaseQuery.__getattr__", "C17.R3")
-    ok = False
-    for n in walk_local(ga.node):
-        if isinstance(n, ast.Assign) and norm(n.targets[0]).endswith("._hash") and isinstance(n.value, ast.IfExp):
-            if norm(n.value.test) == "self.is_hashable()" and const_value(n.value.orelse) is None:
-                ok = True
+    # every non-None identity stored by __getattr__ is stored only when the parent is hashable
+    def _arms(e):
+        return _arms(e.body) + _arms(e.orelse) if isinstance(e, ast.IfExp) else [e]
+    stores_ = [a_ for n in walk_local(ga.node) if isinstance(n, ast.Assign) and norm(n.targets[0]).endswith("._hash")
+               for a_ in _arms(n.value)]
+    live = [a_ for a_ in stores_ if const_value(a_) is not None]
+    ok = bool(live) and all(
+        any(len(c) == 1 and next(iter(c)) == ("truthy(self.is_hashable())", True) for c in guard_clauses(guards(a_)))
+        for a_ in live)
     yield Ob("C17.R3", ["C17"], f"{ga.qual} | path extension keeps None identities None", ok,
              "identity only if the parent is hashable" if ok else
              "a key appended after map() resurrects a hashable identity", ga.loc())
